@@ -148,33 +148,54 @@ static int on_term_key(TickitTerm *term, TickitEventFlags flags, void *_info, vo
   return _handle_key(win, info);
 }
 
-/* Deliver a mouse event straight to a window that is not reached by recursing
- * from the root.  _handle_mouse() holds a reference to every window it is
- * working on, but here nothing holds the ancestors: a handler that releases
- * its own window and then one of its ancestors would destroy that ancestor at
- * once, and the ancestor's destruction would consume the very reference
- * _handle_mouse() holds on the window.  So hold the ancestors as well, and let
- * go of them nearest first, the way the recursion from the root would
+/* An event that is delivered straight to a window - not by recursing from the
+ * root - runs with a reference held on each of the window's ancestors.  The
+ * dispatching function holds a reference to the window it is working on, but
+ * nothing holds the ancestors: a handler that releases its own window and then
+ * one of its ancestors would destroy that ancestor at once, and the ancestor's
+ * destruction would consume the very reference the dispatch holds on the
+ * window.  The ancestors are let go of nearest first, the way the recursion
+ * from the root would
  */
-static TickitWindow *_handle_mouse_at(TickitWindow *win, TickitMouseEventInfo *info)
-{
-  size_t n = 0;
-  for(TickitWindow *w = win->parent; w; w = w->parent)
-    n++;
+typedef struct {
+  TickitWindow **wins;
+  size_t         n;
+} HeldWindows;
 
-  TickitWindow **held = NULL;
-  if(n && !(held = malloc(n * sizeof(TickitWindow *))))
-    return NULL;
+static bool _hold_ancestors(TickitWindow *win, HeldWindows *held)
+{
+  held->n = 0;
+  held->wins = NULL;
+
+  for(TickitWindow *w = win->parent; w; w = w->parent)
+    held->n++;
+
+  if(held->n && !(held->wins = malloc(held->n * sizeof(TickitWindow *))))
+    return false;
 
   size_t i = 0;
   for(TickitWindow *w = win->parent; w; w = w->parent)
-    held[i++] = tickit_window_ref(w);
+    held->wins[i++] = tickit_window_ref(w);
+
+  return true;
+}
+
+static void _release_held(HeldWindows *held)
+{
+  for(size_t i = 0; i < held->n; i++)
+    tickit_window_unref(held->wins[i]);
+  free(held->wins);
+}
+
+static TickitWindow *_handle_mouse_at(TickitWindow *win, TickitMouseEventInfo *info)
+{
+  HeldWindows held;
+  if(!_hold_ancestors(win, &held))
+    return NULL;
 
   TickitWindow *ret = _handle_mouse(win, info);
 
-  for(i = 0; i < n; i++)
-    tickit_window_unref(held[i]);
-  free(held);
+  _release_held(&held);
 
   return ret;
 }
@@ -622,10 +643,17 @@ void tickit_window_set_geometry(TickitWindow *win, TickitRect geom)
 
     win->rect = geom;
 
-    /* A handler may drop the last reference to this window */
+    /* A handler may drop the last reference to this window, or to one of its
+     * ancestors */
+    HeldWindows held;
+    if(!_hold_ancestors(win, &held))
+      return;
+
     tickit_window_ref(win);
     run_events(win, TICKIT_WINDOW_ON_GEOMCHANGE, &info);
     tickit_window_unref(win);
+
+    _release_held(&held);
   }
 }
 
@@ -1353,7 +1381,15 @@ static void _focus_lost(TickitWindow *win);
 
 void tickit_window_take_focus(TickitWindow *win)
 {
+  /* A focus handler of this window may drop the last reference to one of its
+   * ancestors, after _focus_gained() has let go of that ancestor again */
+  HeldWindows held;
+  if(!_hold_ancestors(win, &held))
+    return;
+
   _focus_gained(win, NULL);
+
+  _release_held(&held);
 }
 
 static void _focus_gained(TickitWindow *win, TickitWindow *child)
